@@ -3,7 +3,7 @@
    The model (C20/Model.v) is the code of supla_esp_dns_client.c with the repair
    docs/fixes/C20_short_name_stale_state.diff (`step true`); `step false` is the code without it.
    Histories are arbitrary lists of events
-     Resolve name | ConnectCb | DisconnectCb | ReconnectCb err | Recv bytes | SentRes r | ConnRes r | Adv dt | Dump
+     Resolve name | ConnectCb | DisconnectCb | ReconnectCb err | Recv bytes | SentRes r | ConnRes r | DiscRes r | Adv dt | Dump
    in any order; the only side condition is that a received segment is shorter than 65536 bytes
    (the length parameter of the receive callback is an unsigned short). *)
 From Coq Require Import List ZArith.
@@ -87,8 +87,8 @@ Print Assumptions C20_callbacks_le_requests.
    W 1 = SERVER_COUNT*timeout + (SERVER_COUNT-1)*retry after the request, extended by one retry delay per
    network callback delivered (a callback can only re-arm the 0.2 s retry timer).
    Timers fire when due (the semantics of `Adv`): this is the fairness assumption, built into the event.
-   `post` may contain any `ConnRes r` / `SentRes r` events: the statement holds for every sequence of results of
-   espconn_connect and espconn_sent (the timeout timer is armed before espconn_connect is called, its result is ignored).
+   `post` may contain any `ConnRes r` / `SentRes r` / `DiscRes r` events: the statement holds for every sequence of results of
+   espconn_connect, espconn_sent and espconn_disconnect (the timeout timer is armed before espconn_connect is called, its result is ignored).
    Hence, as soon as the advanced time exceeds that bound the callback has been made -- exactly once. *)
 Theorem C20_exactly_once_bounded : forall pre name post,
   Forall ev_ok pre -> Forall ev_ok post -> no_resolve post ->
